@@ -174,7 +174,11 @@ func compareInterp(c *Case, m Result, in Result, mode string) []Disagreement {
 			add("interp-vs-machine/acctmeta", "machine: %s; interpreter: %s", jsonString(m.AcctMeta), jsonString(in.AcctMeta))
 		}
 	}
-	// the interpreter against the specified outcome (modulo zero-amount postings)
+	// the interpreter against the specified outcome (modulo zero-amount postings); only reported when
+	// the two real runtimes agree with each other (otherwise it repeats the disagreement above)
+	if len(ds) > 0 {
+		return ds
+	}
 	exp := &c.Exp
 	switch {
 	case exp.Ok != in.Ok:
@@ -257,6 +261,10 @@ func Signature(c *Case, d Disagreement) string {
 		if c.Exp.Kbr {
 			// class K of the specification: a clause that keeps funds is followed by another clause
 			return kind + "@kept-then-clause"
+		}
+		if c.Exp.Zsplit && strings.HasSuffix(kind, "/postings") {
+			// class Z of the specification: same-account parts separated by a zero-amount part
+			return kind + "@zero-part-split"
 		}
 	}
 	return kind + "@" + c.Fam
